@@ -324,8 +324,11 @@ def c08(prop, tier):
 def c01(prop, tier):
     curves = ["bn254", "bls12-377"] if tier == "quick" else CURVES
     jobs = [Job("groth16-" + c, "./backend/groth16/" + c, ["prelude_sym.go", "c08_groth16.go"], groth_subst(c)) for c in curves]
+    for c in (["bn254"] if tier == "quick" else CURVES):
+        sub = dict(groth_subst(c), FRPKG=fr_pkg(c))
+        jobs.append(Job("groth16-pairing-equation-" + c, "./backend/groth16/" + c, ["prelude_sym.go", "prelude_fr_sym.go", "c01_algebra.go"], sub))
     return run_property(prop, tier, jobs,
-                        title="C01 (verifier side): Groth16 Verify accepts only when the proof carries exactly the commitments the key prescribes and the witness has the key's length, for every shape within the bounds and every outcome of the (opaque) cryptographic predicates.",
+                        title="C01 (verifier side): Groth16 Verify accepts only when the proof carries exactly the commitments the key prescribes and the witness has the key's length, for every shape within the bounds and every outcome of the (opaque) cryptographic predicates. Generic-group (algebra) model for commitment-free keys with 1..4 K entries: Verify accepts <=> e = Krs*(-delta) + Ar*Bs + (K0 + sum w_i K_i+1)*(-gamma), all group elements and public inputs symbolic.",
                         design_ref="DESIGN.md §3 C01",
                         assumptions=["Setup invariants on the verifying key", "gnark-crypto primitives: opaque stubs with their length contracts"],
                         outside=["knowledge soundness of the pairing equation", "Setup / Prove", "byte-level decoding"])
@@ -440,15 +443,15 @@ def c15(prop, tier):
 
 
 def c13(prop, tier):
-    jobs = [Job("rangecheck-commit", "./std/rangecheck", ["prelude_sym.go", "c13_rangecheck.go"], {"PKGNAME": "rangecheck"}),
+    jobs = [Job("rangecheck-commit", "./std/rangecheck", ["prelude_sym.go", "prelude_fr_sym.go", "c13_rangecheck.go"], {"PKGNAME": "rangecheck", "FRPKG": fr_pkg("bn254")}, model="gfp:251"),
             Job("lookup-blueprint", "./constraint", ["prelude_sym.go", "prelude_elem_sym.go", "c06_sparse.go", "c10_lookup.go"],
                 {"PKGNAME": "constraint", "ELEMTYPE": "U32", "ELEMFR": fr_pkg("tinyfield")}, model="gfp:13", entries=["verifHarness_lookupSequential"])]
     return run_property(prop, tier, jobs,
-                        title="C13: the real commitChecker.commit against a symbolic integer API with adversarial limbs (hint outputs) and the log-derivative argument replaced by its specification: constraints satisfied => value < 2^bits, for 1-2 checked variables of widths {1,2,3,5,7,8,9,12,16}; the lookup blueprint returns the queried entry and errors outside the table.",
+                        title="C13: the real commitChecker.commit against a symbolic API over field values (stand-in field GF(251), machine-word model) with adversarial limbs (hint outputs: any field element) and the log-derivative argument replaced by its specification: constraints satisfied => value < 2^bits, for 1-2 checked variables of widths {1,2,3,5,7}; the lookup blueprint returns the queried entry and errors outside the table.",
                         design_ref="DESIGN.md §3 C13",
                         assumptions=["specification of logderivarg.Build (every query is a table entry): its soundness (Schwartz-Zippel over a committed challenge) is not decided here",
-                                     "values and limbs below 2^40 / 2^20 (larger ones cannot satisfy the table constraint)"],
-                        outside=["soundness of the log-derivative argument and of the commitment (multi-challenge encoding planned)", "bit-decomposition strategy (rangecheck_plain, covered by C05 ToBinary)", "logderivlookup gadget constraints", "widths above 16"])
+                                     "stand-in field GF(251) (2^bits < 251 for the widths used); the code under test never looks at the modulus"],
+                        outside=["soundness of the log-derivative argument and of the commitment (multi-challenge encoding planned)", "bit-decomposition strategy (rangecheck_plain, covered by C05 ToBinary)", "logderivlookup gadget constraints", "widths above 7 bits (stand-in field size)"])
 
 
 def c03(prop, tier):
